@@ -1,5 +1,5 @@
 (* Proofs about the location model (Location/Quote.v, Location/Loc.v). *)
-From Coq Require Import List NArith Bool Lia ZifyBool.
+From Coq Require Import List NArith PeanoNat Bool Lia ZifyBool.
 From SDC Require Import Location.Quote Location.Loc.
 Import ListNotations.
 Open Scope N_scope.
@@ -547,3 +547,218 @@ Proof.
   - unfold optq. rewrite app_nil_r. rewrite (split1_none 63 _ M63). reflexivity.
   - unfold optq. rewrite (split1_app 63 _ _ M63). reflexivity.
 Qed.
+
+(* ================================================================ from_scope of a well-formed scope text *)
+Section WithConsts.
+  Variable K : consts.
+  Hypothesis HK : consts_ok K = true.
+
+  Lemma consts_inv :
+    scheme_ok (c_scheme K) = true /\ c_pub_scheme K = c_scheme K /\ length (c_elements K) = 6%nat /\
+    forallb name_ok (c_elements K) = true /\ nodupb (c_elements K) = true /\
+    root_ok (c_default_root K) = true /\ root_ok (c_ident_root K) = true.
+  Proof.
+    unfold consts_ok in HK. repeat (apply andb_prop in HK as [HK ?]).
+    repeat split; auto. - now apply bytes_eqb_eq. - now apply Nat.eqb_eq.
+  Qed.
+
+  Lemma from_scope_shape : forall bad qroot seg q c t,
+    qroot = c :: t -> c <> 47 -> mem 47 qroot = false -> mem 47 seg = false ->
+    forallb pathc (47 :: qroot ++ 47 :: seg) = true -> forallb queryc q = true ->
+    from_scope K (urlsplit bad) (urlunparse_nonetloc (c_scheme K) (47 :: qroot ++ 47 :: seg) q) =
+    inl (mkLoc (unquote qroot) (map (fun n => dict_get n (parse_qsl q)) (c_elements K))).
+  Proof.
+    intros bad qroot seg q c t Eq Hc Mq Ms Hp Hq.
+    destruct consts_inv as (Hs & _).
+    unfold from_scope.
+    rewrite (urlsplit_scope bad _ _ q c (t ++ 47 :: seg)); auto.
+    - destruct (scheme_ok_inv _ Hs) as (_ & _ & _ & _ & _ & Hl). rewrite Hl, bytes_eqb_refl.
+      change (split_on 47 (47 :: qroot ++ 47 :: seg)) with ([] :: split_on 47 (qroot ++ 47 :: seg)).
+      rewrite split_on_app by auto. rewrite split_on_none by auto. reflexivity.
+    - rewrite Eq. reflexivity.
+  Qed.
+
+  (* -------------------------------------------------------------- well-formed locations *)
+  Definition wf_loc (l : loc) : Prop :=
+    length (l_vals l) = length (c_elements K) /\ Forall opt_is_bytes (l_vals l).
+  Definition nonempty_fields (l : loc) : Prop := Forall (fun v => v <> Some []) (l_vals l).
+
+  Lemma norm_id : forall vals, Forall (fun v => v <> Some []) vals -> map norm vals = vals.
+  Proof.
+    induction 1 as [|v vs Hv _ IH]; simpl; auto. rewrite IH. f_equal.
+    destruct v as [[|x xs]|]; auto. congruence.
+  Qed.
+
+  Lemma root_ok_inv : forall r, root_ok r = true -> nonempty r = true /\ mem 47 r = false /\ is_bytes r.
+  Proof.
+    intros r H. unfold root_ok in H. apply andb_prop in H as [H H3]. apply andb_prop in H as [H1 H2].
+    repeat split; auto. - now apply negb_true_iff.
+    - apply Forall_forall. intros c Hc. rewrite forallb_forall in H3. apply H3 in Hc. unfold is_byteb in Hc.
+      unfold is_byte. lia.
+  Qed.
+
+  Lemma vals_quoted_pchar : forall vals, Forall opt_is_bytes vals ->
+    Forall (fun p => forallb pchar p = true) (map (fun v => quote [] (val_or_empty v)) vals).
+  Proof.
+    intros vals H. apply Forall_map. eapply Forall_impl; [|exact H]. intros [x|] Hx; simpl; [now apply quote_pchar|reflexivity].
+  Qed.
+
+  Lemma pchar_pathc : forall s, forallb pchar s = true -> forallb pathc s = true.
+  Proof. intros s. apply forallb_impl. intros c H. unfold pathc. now rewrite H. Qed.
+
+  (* -------------------------------------------------------------- round trip *)
+  Theorem roundtrip : forall bad l,
+    wf_loc l -> nonempty_fields l -> root_ok (l_root l) = true ->
+    from_scope K (urlsplit bad) (scope_string K l) = inl l.
+  Proof.
+    intros bad l [Hlen Hb] Hne Hr.
+    destruct consts_inv as (Hs & _ & _ & Hnames & Hnd & _).
+    destruct (root_ok_inv _ Hr) as (Rn & R47 & Rb).
+    destruct (quote_first_not47 [47] _ Rn R47) as (c & t & Eq & Hc).
+    unfold scope_string.
+    set (seg := join slash_q (map (fun v => quote [] (val_or_empty v)) (l_vals l))).
+    set (q := urlencode (quote_plus []) (present (c_elements K) (l_vals l))).
+    assert (Pseg : forallb pchar seg = true).
+    { apply forallb_join; [reflexivity|]. now apply vals_quoted_pchar. }
+    assert (Pb : pairs_bytes (present (c_elements K) (l_vals l))) by (apply present_bytes; auto).
+    rewrite (from_scope_shape bad _ seg q c t); auto.
+    - rewrite unquote_quote by auto. unfold q.
+      rewrite parse_qsl_urlencode by auto using enc_ok_quote_plus.
+      rewrite present_filter_id, dict_get_present by auto. rewrite norm_id by auto.
+      destruct l; reflexivity.
+    - now apply quote_slash_no47.
+    - eapply mem_false_forall; eauto.
+    - cbn [forallb]. rewrite forallb_app. cbn [forallb].
+      rewrite quote_slash_pathc by auto. rewrite pchar_pathc by auto. reflexivity.
+    - apply urlencode_queryc; auto using enc_ok_quote_plus.
+  Qed.
+
+  (* -------------------------------------------------------------- the published scope parses to the (normalised) location *)
+  Lemma quote_nil_no47 : forall s, is_bytes s -> mem 47 (quote [] s) = false.
+  Proof. intros s H. eapply mem_false_forall; [apply quote_pchar; auto|reflexivity]. Qed.
+
+  Lemma loc_extension_bytes : forall l, wf_loc l -> is_bytes (loc_extension l).
+  Proof.
+    intros l [_ Hb]. unfold loc_extension.
+    assert (H : forallb is_byteb (join [47] (map (fun v => quote [] (val_or_empty v)) (l_vals l))) = true).
+    { apply forallb_join; [reflexivity|]. apply Forall_map. eapply Forall_impl; [|exact Hb].
+      intros v Hv. eapply forallb_impl; [|apply quote_pchar; destruct v; simpl; [exact Hv|constructor]].
+      intros c Hc. unfold pchar in Hc. unfold is_byteb.
+      destruct (always_safe c) eqn:E; [apply always_safe_lt in E; lia|]. simpl in Hc. lia. }
+    apply Forall_forall. intros c Hc. rewrite forallb_forall in H. apply H in Hc. unfold is_byteb in Hc. unfold is_byte. lia.
+  Qed.
+
+  Lemma published_shape : forall l s, wf_loc l -> published_of K l = Some s ->
+    loc_extension l <> [] /\
+    s = urlunparse_nonetloc (c_scheme K)
+          (47 :: quote [] (c_ident_root K) ++ 47 :: quote [] (loc_extension l))
+          (urlencode (quote []) (state_query_dict (c_elements K) (l_vals l))).
+  Proof.
+    intros l s Hwf H. destruct consts_inv as (Hs & Hpub & _).
+    unfold published_of, state_of in H. destruct (bytes_eqb (loc_extension l) slash5) eqn:E; [discriminate|].
+    cbn [published_scopes s_idents map] in H. injection H as <-.
+    assert (Hne : loc_extension l <> []).
+    { unfold loc_extension. destruct Hwf as [Hlen _]. destruct consts_inv as (_ & _ & H6 & _).
+      rewrite H6 in Hlen. destruct (l_vals l) as [|v0 [|v1 r]]; try discriminate.
+      rewrite map_cons, map_cons, join_cons2. intros Habs. apply app_eq_nil in Habs as [_ Habs]. discriminate. }
+    split; auto.
+    unfold published_scope. cbn [i_root i_ext s_detail].
+    destruct (loc_extension l) as [|e0 er] eqn:Ee; [congruence|]. cbn [nonempty].
+    rewrite Hpub. rewrite urlunparse_shape by (destruct (scheme_ok_inv _ Hs) as (? & ? & -> & _); reflexivity).
+    unfold optq. destruct (urlencode (quote []) (state_query_dict (c_elements K) (l_vals l))) eqn:Eq; cbn [nonempty].
+    - now rewrite app_nil_r.
+    - rewrite <- app_assoc. reflexivity.
+  Qed.
+
+  Theorem published_parse : forall bad l s, wf_loc l -> published_of K l = Some s ->
+    from_scope K (urlsplit bad) s = inl (mkLoc (c_ident_root K) (map norm (l_vals l))).
+  Proof.
+    intros bad l s Hwf H. destruct (published_shape l s Hwf H) as [Hne ->].
+    destruct consts_inv as (Hs & _ & _ & Hnames & Hnd & _ & Hir).
+    destruct (root_ok_inv _ Hir) as (Rn & R47 & Rb).
+    destruct (quote_first_not47 [] _ Rn R47) as (c & t & Eq & Hc).
+    pose proof (loc_extension_bytes l Hwf) as Eb. destruct Hwf as [Hlen Hb].
+    assert (Pb : pairs_bytes (state_query_dict (c_elements K) (l_vals l))) by (apply state_dict_bytes; auto).
+    rewrite (from_scope_shape bad _ _ _ c t); auto using quote_nil_no47.
+    - rewrite unquote_quote by auto.
+      rewrite parse_qsl_urlencode by auto using enc_ok_quote.
+      rewrite present_of_state_dict, dict_get_present by auto. reflexivity.
+    - cbn [forallb]. rewrite forallb_app. cbn [forallb].
+      rewrite !pchar_pathc by auto using quote_pchar. reflexivity.
+    - apply urlencode_queryc; auto using enc_ok_quote.
+  Qed.
+
+  (* -------------------------------------------------------------- containment *)
+  Definition elem_enclosed (my other : option bytes) : Prop := my = None \/ my = other.
+
+  Lemma elem_ok_spec : forall my other, elem_ok my other = true <-> elem_enclosed my other.
+  Proof.
+    intros [m|] [o|]; unfold elem_enclosed; simpl; split; intros H; auto; try discriminate.
+    - apply bytes_eqb_eq in H. subst; auto.
+    - destruct H as [H|H]; [discriminate|]. injection H as ->. apply bytes_eqb_refl.
+    - destruct H; discriminate.
+  Qed.
+
+  Lemma contains_spec : forall self other, length (l_vals self) = length (l_vals other) ->
+    (contains self other = true <->
+     l_root self = l_root other /\ Forall2 elem_enclosed (l_vals self) (l_vals other)).
+  Proof.
+    intros [r1 v1] [r2 v2]. unfold contains. simpl. intros Hl.
+    rewrite andb_true_iff, bytes_eqb_eq.
+    assert (forallb (fun p => elem_ok (fst p) (snd p)) (combine v1 v2) = true <-> Forall2 elem_enclosed v1 v2).
+    { revert v2 Hl. induction v1 as [|a v1 IH]; intros [|b v2] Hl; try discriminate; simpl.
+      - split; auto.
+      - rewrite andb_true_iff, elem_ok_spec, IH by (simpl in Hl; congruence). split.
+        + intros [? ?]; constructor; auto.
+        + intros H; inversion H; auto. }
+    tauto.
+  Qed.
+
+  Lemma contains_false_at : forall self other i v,
+    nth_error (l_vals self) i = Some (Some v) -> (exists x, nth_error (l_vals other) i = Some x /\ x <> Some v) ->
+    contains self other = false.
+  Proof.
+    intros [r1 v1] [r2 v2] i v. unfold contains. simpl. intros H1 (x & H2 & Hx).
+    apply andb_false_iff. right. revert v2 i H1 H2. induction v1 as [|a v1 IH]; intros v2 [|i] H1 H2; simpl in *; try discriminate.
+    - injection H1 as ->. destruct v2 as [|b v2]; [discriminate|]. injection H2 as ->. simpl.
+      destruct x as [o|]; simpl; auto. destruct (bytes_eqb v o) eqn:E; auto. apply bytes_eqb_eq in E. congruence.
+    - destruct v2 as [|b v2]; [discriminate|]. simpl. rewrite (IH v2 i); auto. apply andb_false_r.
+  Qed.
+
+  (* -------------------------------------------------------------- filtering is total once ValueError is caught *)
+  Lemma scope_matches_total : forall split self s, exists b, scope_matches K true split self s = Ret b.
+  Proof.
+    intros split self s. unfold scope_matches. destruct (from_scope K split s) as [o|[|]]; eauto.
+  Qed.
+
+  Lemma any_scope_total : forall split self scopes, exists b, any_scope K true split self scopes = Ret b.
+  Proof.
+    intros split self scopes. induction scopes as [|s r IH]; simpl; eauto.
+    destruct (scope_matches_total split self s) as [b ->]. destruct b; eauto.
+  Qed.
+
+  Lemma filter_total : forall split self svs, exists r, filter_inside K true split self svs = Ret r.
+  Proof.
+    intros split self svs. induction svs as [|sv r IH]; simpl; eauto.
+    assert (exists b, service_matches K true split self sv = Ret b) as [b ->].
+    { destruct sv; simpl; eauto using any_scope_total. }
+    destruct IH as [l ->]. eauto.
+  Qed.
+
+  (* what the filter returns: exactly the services one of whose scopes parses to a location inside self *)
+  Definition scope_inside (split : bytes -> sres) (self : loc) (s : bytes) : bool :=
+    match from_scope K split s with inl o => contains self o | inr _ => false end.
+  Definition service_inside (split : bytes -> sres) (self : loc) (sv : service) : bool :=
+    match sv with None => false | Some scopes => existsb (scope_inside split self) scopes end.
+
+  Lemma filter_spec : forall split self svs,
+    filter_inside K true split self svs = Ret (filter (service_inside split self) svs).
+  Proof.
+    intros split self svs. induction svs as [|sv r IH]; simpl; auto.
+    assert (service_matches K true split self sv = Ret (service_inside split self sv)) as ->.
+    { destruct sv as [scopes|]; simpl; auto. induction scopes as [|s t IHs]; simpl; auto.
+      unfold scope_matches, scope_inside at 1. destruct (from_scope K split s) as [o|[|]]; simpl; auto.
+      destruct (contains self o); simpl; auto. }
+    rewrite IH. destruct (service_inside split self sv); reflexivity.
+  Qed.
+End WithConsts.
